@@ -112,3 +112,22 @@ pub fn parse_error(src: &str, cfg: &Cfg) -> Option<String> {
         Err(_) => Some("parser panicked".to_string()),
     }
 }
+
+/// Same as `run`, on a fresh thread with the given stack size (2 MiB = what a CLI pool worker has).
+/// A stack overflow kills the whole process: the parent attributes it to the case in progress.
+pub fn run_with_stack(src: &str, cfg: &Cfg, range: Range, stack: usize) -> Outcome {
+    let src = src.to_string();
+    let cfg = cfg.clone();
+    let h = std::thread::Builder::new().stack_size(stack).spawn(move || run(&src, &cfg, range, false, false));
+    match h {
+        Ok(h) => match h.join() {
+            Ok(o) => o,
+            Err(_) => Outcome { result: Err(FmtErr::Panic("thread panicked outside catch_unwind".to_string())), ticks: 0, events: Vec::new() },
+        },
+        Err(_) => run(&src_fallback(), &Cfg::default(), None, false, false),
+    }
+}
+
+fn src_fallback() -> String {
+    String::new()
+}
